@@ -331,10 +331,38 @@ def _task_trees(task):
                         t.violation({"kind": "boolean-expression", "leaf_mode": mode, "got": str(got)[:30]},
                                     {"form": "BooleanExpression", "tree": tree, "assignment": vals, "leaf_mode": mode},
                                     expected=want, observed=repr(got))
+            # leaves that REPEAT parameters: the same condition text occurs in different groups, and leaves that differ only in
+            # their raw/calibrated selector; values and raw values of the two parameters vary independently
+            if n <= task.get("repeat_max_leaves", 4):
+                for binding in itertools.product(range(2), repeat=n):
+                    leaves = [Cond(f"P{b}", "==", right_value="1", left_cal=(i % 2 == 0), right_cal=False) for i, b in enumerate(binding)]
+                    it = iter(leaves)
+
+                    def build(node):
+                        kind, direct, kids = node
+                        conds = tuple(next(it) for _ in range(direct))
+                        subs = tuple(build(k) for k in kids)
+                        return And(conds, subs) if kind == "and" else Or(conds, subs)
+                    spec = build(tree)
+                    be = comparisons.BooleanExpression(_lib_expr(comparisons, spec))
+                    for v0, r0, v1, r1 in itertools.product((0, 1), repeat=4):
+                        pkt = CCSDSPacket(P0=common.IntParameter(v0, r0), P1=common.IntParameter(v1, r1))
+                        leaf_vals = [((v0, r0), (v1, r1))[b][0 if i % 2 == 0 else 1] for i, b in enumerate(binding)]
+                        want = tree_truth(tree, leaf_vals, [0])
+                        t.evals += 1
+                        try:
+                            got = be.evaluate(pkt)
+                        except Exception as e:  # noqa: BLE001
+                            got = f"raised:{type(e).__name__}"
+                        if not _is_bool(got, want):
+                            t.violation({"kind": "boolean-expression", "leaf_mode": "repeated-parameters", "got": str(got)[:30]},
+                                        {"form": "BooleanExpression", "tree": tree, "binding": binding, "assignment": (v0, r0, v1, r1), "leaf_mode": "repeat"},
+                                        expected=want, observed=repr(got))
             t.nontrivial += 1
             t.states += 1
     if task["trees"]:
-        t.sample({"form": "BooleanExpression", "tree": task["trees"][-1], "assignments": "all 2^leaves", "leaf_modes": ["value", "param(int-vs-float)"]})
+        t.sample({"form": "BooleanExpression", "tree": task["trees"][-1], "assignments": "all 2^leaves",
+                  "leaf_modes": ["value", "param(int-vs-float)", "repeated parameters with alternating raw/calibrated selectors"]})
     return t
 
 
@@ -546,7 +574,7 @@ def run(ctx):
         "bound": (f"Comparison: 16 operator spellings x both selectors x 13 values x 13 raw values x literals of the selected type (full truth table) "
                   f"+ own-raw-value form; Condition: 16 spellings x (parameter-vs-parameter over 10 numeric values incl. int-vs-float in both orders "
                   f"and bools, 3 strings; 4 selector combinations) + parameter-vs-literal; BooleanExpression: all {len(trees)} AND/OR trees with <= {maxl} "
-                  f"leaves and depth <= {maxd} x 2 leaf forms x all 2^leaves assignments; DiscreteLookup: 5 criteria lists x 4 values x 9 assignments; "
+                  f"leaves and depth <= {maxd} x 2 leaf forms x all 2^leaves assignments, plus (<= 4 leaves) every binding of the leaves to 2 repeated parameters with alternating selectors x all 16 value/raw assignments; DiscreteLookup: 5 criteria lists x 4 values x 9 assignments; "
                   f"reuse: one Comparison/Condition/BooleanExpression/DiscreteLookup object evaluated over every history of {2 if ctx.quick else 3} operands of mixed kinds (10 operands); "
                   f"consumer level: {len(crits)} restriction criteria (every form) x {len(consumer_packets())} packets, loaded from XML and built from objects"),
         "rule": ("one evaluation = one evaluate() call or one packet routed through a criterion; distinct non-trivial = distinct truth-table cells "
